@@ -230,6 +230,8 @@ impl<'env> Executor<'env> {
     ) -> Result<Option<Value>, Error> {
         #[cfg(feature = "verif_hooks")]
         let _verif_activation = crate::verif_hooks::recursion::enter(state.ctx.depth());
+        #[cfg(feature = "verif_hooks")]
+        let verif_opstack_activation = crate::verif_hooks::opstack::enter();
         let initial_auto_escape = state.auto_escape;
         #[cfg(feature = "verif_hooks")]
         let (verif_entry_name, verif_entry_pc, verif_entry_depths) = {
@@ -383,6 +385,13 @@ impl<'env> Executor<'env> {
 
             #[cfg(feature = "verif_hooks")]
             crate::verif_hooks::instructions::on_instruction(instr);
+            #[cfg(feature = "verif_hooks")]
+            crate::verif_hooks::opstack::on_instruction(
+                verif_opstack_activation,
+                pc,
+                stack.verif_len(),
+                instr,
+            );
 
             // if the fuel consumption feature is enabled, track the fuel
             // consumption here.
